@@ -103,7 +103,7 @@ var vkNames = []vkName{
 	{"nx.u.t.", 1},      // insecure NXDOMAIN
 	{"nx.alias.d.t.", 1},
 	{"h.t.", 1},
-	{"u.t.", 1},
+	{"u.t.", 0},         // apex of the INSECURE child: its DS question is answered, and denied, by the signed parent t.
 	{".", 1},
 }
 
